@@ -41,11 +41,36 @@ type progOp struct {
 
 func genProgram(r *rand.Rand, nIn int, fast bool, n int) []progOp {
 	var p []progOp
-	p = append(p, progOp{Kind: "load", Vec: randInputs(r, nIn, 1.5)})
+	switch r.Intn(6) {
+	case 0:
+		p = append(p, progOp{Kind: "load", Vec: make([]float64, nIn)})
+	case 1:
+		// no load at all before the first activation
+		p = append(p, progOp{Kind: "forward", Arg: 1})
+	default:
+		p = append(p, progOp{Kind: "load", Vec: randInputs(r, nIn, 1.5)})
+	}
 	for i := 0; i < n; i++ {
 		switch r.Intn(8) {
 		case 0, 1:
-			p = append(p, progOp{Kind: "load", Vec: randInputs(r, nIn, 1.5)})
+			switch r.Intn(5) {
+			case 0:
+				p = append(p, progOp{Kind: "load", Vec: make([]float64, nIn)}) // the all-zero vector (XOR's first row)
+			case 1:
+				// the vector loaded last, once more
+				last := p[0].Vec
+				for _, op := range p {
+					if op.Kind == "load" {
+						last = op.Vec
+					}
+				}
+				if last == nil {
+					last = randInputs(r, nIn, 1.5)
+				}
+				p = append(p, progOp{Kind: "load", Vec: append([]float64{}, last...)})
+			default:
+				p = append(p, progOp{Kind: "load", Vec: randInputs(r, nIn, 1.5)})
+			}
 		case 2, 3:
 			p = append(p, progOp{Kind: "forward", Arg: r.Intn(5)})
 		case 4:
